@@ -117,7 +117,7 @@ def run(ctx):
     for f in ("ndonnx/_propagation.py", "ndonnx/_corearray.py", "ndonnx/_array.py", "ndonnx/_opset_extensions.py"):
         ctx.translator_inputs[f] = core.sha256_file(core.REPO / f)
     scale = 1 if ctx.tier == "quick" else 10
-    cases = program_cases(ctx, rnd, 300 * scale) + function_cases(rnd, scale) + shortcut_cases(rnd, 120 * scale)
+    cases = program_cases(ctx, rnd, 300 * scale) + function_cases(rnd, scale) + shortcut_cases(rnd, 120 * scale) + families.mixed_write_cases(rnd, 60 * scale, prefix="PM")
     # witness of the known finding (kept so that the KNOWN-FINDING line is backed by a replay)
     wit = {"id": "W-where-eq-lazy-cond", "inputs": {"c": {"dtype": "bool", "shape": [3], "data": [True, False, True]}},
            "impl": "out = ndx.where(c, ndx.asarray(np.array([1.5])), ndx.asarray(np.array([1.5])))", "oracle": None, "tol": [0, 0],
